@@ -670,3 +670,102 @@ Proof.
   assert (Ea : (if a <? 0 then -1 else 1) * Z.abs a = a) by (destruct (Z.ltb_spec a 0); lia).
   rewrite Ea in Dn. exact Dn.
 Qed.
+
+(* ---- denomination suffix ---------------------------------------------------------------------- *)
+Lemma beq_eq a : forall b, beq a b = true -> a = b.
+Proof.
+  induction a as [|x a IH]; intros [|y b] H; cbn [beq] in H; try discriminate; [reflexivity|].
+  apply andb_true_iff in H. destruct H as [H1 H2]. apply Byte.byte_dec_bl in H1. f_equal; auto.
+Qed.
+
+Theorem denom_from_str_spec dn d : denom_from_str dn = Some d <-> In dn (aliases d).
+Proof.
+  split.
+  - unfold denom_from_str.
+    repeat match goal with
+           | |- context [beq dn ?l] =>
+               let E := fresh "E" in destruct (beq dn l) eqn:E;
+               [apply beq_eq in E; subst dn; vm_compute; intros [= <-]; tauto|]
+           end.
+    cbn [orb]. discriminate.
+  - destruct d; cbn [aliases map In]; intros H;
+      repeat (destruct H as [<-|H]; [reflexivity|]); contradiction.
+Qed.
+
+Lemma display_is_alias d : In (denom_display d) (aliases d).
+Proof. destruct d; left; reflexivity. Qed.
+
+Lemma split_space_spec s : forall a o, split_space s = (a, o) ->
+  no_space a /\ match o with Some r => s = a ++ x20 :: r | None => s = a end.
+Proof.
+  induction s as [|c t IH]; intros a o H; cbn [split_space] in H.
+  - injection H as <- <-. split; [constructor|reflexivity].
+  - destruct (is_space c) eqn:S.
+    + injection H as <- <-. apply is_space_iff in S. subst c. split; [constructor|reflexivity].
+    + destruct (split_space t) as [a' r'] eqn:E. injection H as <- <-.
+      destruct (IH a' r' eq_refl) as [N M]. split; [constructor; assumption|].
+      destruct r'; cbn [app]; congruence.
+Qed.
+
+Lemma split_space_app a r : no_space a -> split_space (a ++ x20 :: r) = (a, Some r).
+Proof.
+  induction 1 as [|c a Hc Ha IH]; cbn [app split_space]; [reflexivity|]. rewrite Hc, IH. reflexivity.
+Qed.
+Lemma split_space_none a : no_space a -> split_space a = (a, None).
+Proof.
+  induction 1 as [|c a Hc Ha IH]; cbn [split_space]; [reflexivity|]. rewrite Hc, IH. reflexivity.
+Qed.
+
+(* FromStr: exactly one space, a known denomination name after it, and the amount before it parses *)
+Theorem from_str_suffix_spec f s q :
+  from_str_with_denomination f s = AOk q <->
+  exists a dn d, s = a ++ x20 :: dn /\ no_space a /\ no_space dn /\ In dn (aliases d) /\ f a d = AOk q.
+Proof.
+  unfold from_str_with_denomination. split.
+  - destruct (split_space s) as [a o] eqn:E1. destruct o as [r|]; [|discriminate].
+    destruct (split_space r) as [dn third] eqn:E2. destruct third; [discriminate|].
+    destruct (denom_from_str dn) as [d|] eqn:E3; [|discriminate]. intros F.
+    apply split_space_spec in E1. apply split_space_spec in E2. destruct E1 as [N1 ->], E2 as [N2 ->].
+    exists a, dn, d. repeat split; auto. now apply denom_from_str_spec.
+  - intros (a & dn & d & -> & N1 & N2 & I & F).
+    rewrite (split_space_app a dn N1), (split_space_none dn N2).
+    apply denom_from_str_spec in I. rewrite I. exact F.
+Qed.
+
+Lemma alias_no_space d al : In al (aliases d) -> no_space al.
+Proof.
+  destruct d; cbn [aliases map In]; intros H;
+    repeat (destruct H as [<-|H]; [repeat constructor|]); contradiction.
+Qed.
+
+Theorem amount_roundtrip_suffix a d : 0 <= a <= 2 ^ 63 - 1 ->
+  exists s, amount_to_string_in a d = AOk s /\
+            amount_to_string_with_denomination a d = AOk (s ++ x20 :: denom_display d) /\
+            forall al, In al (aliases d) -> amount_from_str (s ++ x20 :: al) = AOk a.
+Proof.
+  intros H. unfold amount_to_string_with_denomination, with_suffix, amount_to_string_in.
+  destruct (fmt_denotes a false d ltac:(unfold U64MAX; lia)) as (s & E & Dn & NS & SP & _). exists s.
+  rewrite E. cbn [abind]. repeat split; auto. intros al I. apply from_str_suffix_spec.
+  exists s, al, d. repeat split; auto; [eapply alias_no_space; eauto|].
+  apply amount_from_str_in_spec. replace (1 * a) with a in Dn by lia. repeat split; auto. lia.
+Qed.
+
+Theorem signed_roundtrip_suffix a d : - (2 ^ 63 - 1) <= a <= 2 ^ 63 - 1 ->
+  exists s, signed_to_string_in a d = AOk s /\
+            signed_to_string_with_denomination a d = AOk (s ++ x20 :: denom_display d) /\
+            forall al, In al (aliases d) -> signed_from_str (s ++ x20 :: al) = AOk a.
+Proof.
+  intros H. unfold signed_to_string_with_denomination, with_suffix, signed_to_string_in.
+  rewrite signed_picos_abs by (unfold I64MIN, I64MAX; lia). cbn [abind].
+  destruct (fmt_denotes (Z.abs a) (a <? 0) d ltac:(unfold U64MAX; lia)) as (s & E & Dn & _ & SP & _). exists s.
+  rewrite E. cbn [abind]. repeat split; auto. intros al I. apply from_str_suffix_spec.
+  exists s, al, d. repeat split; auto; [eapply alias_no_space; eauto|].
+  apply signed_from_str_in_spec. split; [|lia].
+  assert (Ea : (if a <? 0 then -1 else 1) * Z.abs a = a) by (destruct (Z.ltb_spec a 0); lia).
+  rewrite Ea in Dn. exact Dn.
+Qed.
+
+(* Display is the Monero-denominated form with suffix *)
+Lemma display_is_xmr a : amount_display a = amount_to_string_with_denomination a Monero /\
+                          signed_display a = signed_to_string_with_denomination a Monero.
+Proof. split; reflexivity. Qed.
